@@ -665,6 +665,8 @@ pub struct Entry {
     pub name: String,
     /// native round trip on a generated value: Ok((message, abstract value)) or an explanation
     pub roundtrip: fn(&mut Rng) -> Result<(Vec<u8>, IDLValue), String>,
+    /// only the encoding of a generated value (for types whose generator goes beyond what they accept back)
+    pub encode: fn(&mut Rng) -> Option<Vec<u8>>,
     /// native decoding of arbitrary bytes: the decoded value re-encoded and read back untyped
     pub decode: fn(&[u8]) -> Result<IDLValue, String>,
     pub decode_cfg: fn(&[u8], Option<usize>, Option<usize>) -> Result<(), String>,
@@ -692,6 +694,10 @@ fn rt<T: Corp>(r: &mut Rng) -> Result<(Vec<u8>, IDLValue), String> {
     let _v: T = de.get_value().map_err(|e| format!("get_value: {e}"))?;
     de.done().map_err(|e| format!("done: {e}"))?;
     Ok((bytes, v.idl()))
+}
+fn enc<T: Corp>(r: &mut Rng) -> Option<Vec<u8>> {
+    let v = T::arb(r, 3);
+    Encode!(&v).ok()
 }
 fn dec<T: Corp>(b: &[u8]) -> Result<IDLValue, String> {
     let v = Decode!(b, T).map_err(|e| format!("{e}"))?;
@@ -723,6 +729,7 @@ macro_rules! entry {
         Entry {
             name: stringify!($t).replace(' ', ""),
             roundtrip: rt::<$t>,
+            encode: enc::<$t>,
             decode: dec::<$t>,
             decode_cfg: dec_cfg::<$t>,
             ty: tyc::<$t>,
